@@ -29,11 +29,12 @@ REQUIRED_THEOREMS = [
     "Acn.C19.waiting_iff_station_none", "Acn.C19.no_error", "Acn.C19.never_charged_counts",
     "Acn.C19.all_gone_at_end", "Acn.C19.stale_unplug_noop", "Acn.C19.deterministic_given_choices",
     "Acn.C19.wellFormed_protocol", "Acn.C19.starvation_free", "Acn.C19.all_gone_after_horizon",
-    "Acn.C19.eventCore_history_wellFormed",
+    "Acn.C19.eventCore_history_wellFormed", "Acn.C19.end_to_end", "Acn.C19.end_to_end_properties",
 ]
 BUDGET = {"quick": 2500, "thorough": 15000, "search": 12000}
-TRUSTED = ["heapq: get_current_events returns the due events in (timestamp, precedence) order; the order "
-           "among equal keys is taken from the implementation's own event_history",
+TRUSTED = ["heapq: in the history-level model the order among equal keys is taken from the implementation's own "
+           "event_history; in the COMPOSED model (runGP heapQ stochasticNet) the order is computed by sim-core's "
+           "transcription of CPython's array heap and compared with the implementation",
            "random.choice(seq) returns an element of seq (its index is the model's input)",
            "OrderedDict insertion order / popitem(last=False) / move_to_end; dict order of _EVSEs",
            "EV.fully_charged is an input of the model (read from the implementation each period)"]
@@ -351,7 +352,11 @@ def model_request(case, obs):
     }
 
 
-def _cmp_snap(a, m, where, out, draws=None):
+def _cmp_snap(a, m, where, out, draws=None, blank_none=False):
+    if blank_none:
+        # composed model: a session's pre-assigned station is a string ("" for Python None)
+        m = dict(m)
+        m["station_of"] = [[x, (None if st == "" else st)] for x, st in m["station_of"]]
     if a["occ"] != m["occ"]:
         out.append(f"{where}: occupancy impl={a['occ']} model={m['occ']}")
     if a["waiting"] != m["waiting"]:
@@ -402,6 +407,27 @@ def compare(case, obs, model):
         out.append(f"random.choice calls impl={len(obs['choices'])} model={model['final']['draws']}")
     if model["arrivals"] != obs["ev_history"]:
         out.append(f"ev_history order impl={obs['ev_history']} model={model['arrivals']}")
+    # the COMPOSED model (run loop + CPython heap + stochastic network): it computes the processing
+    # order itself, so the tie order among equal-key events is compared too
+    lp = model["loop"]
+    if lp["err"] != obs["err"]:
+        out.append(f"composed loop: error impl={obs['err']} model={lp['err']}")
+    if [list(e) for e in lp["events"]] != [list(e) for e in obs["events"]]:
+        out.append(f"composed loop: event_history impl={obs['events']} model={lp['events']}")
+    if lp["ev_history"] != obs["ev_history"] or lp["arrivals"] != obs["ev_history"]:
+        out.append(f"composed loop: ev_history impl={obs['ev_history']} model={lp['ev_history']}/{lp['arrivals']}")
+    if obs["err"] is None and (lp["iterations"] != obs["iterations"] or not lp["queue_empty"]):
+        out.append(f"composed loop: iterations impl={obs['iterations']} model={lp['iterations']} queue_empty={lp['queue_empty']}")
+    posts = [st["snap"] for st in tr if st["op"] == "post"]
+    if len(posts) != len(lp["periods"]):
+        out.append(f"composed loop: periods impl={len(posts)} model={len(lp['periods'])}")
+    for t, (a, m) in enumerate(zip(posts, lp["periods"])):
+        _cmp_snap(a, m, f"composed loop period {t}", out, blank_none=True)
+        if len(out) > 8:
+            break
+    _cmp_snap(obs["final"], lp["final"], "composed loop final", out, blank_none=True)
+    if lp["final"]["draws"] != len(obs["choices"]):
+        out.append(f"composed loop: random.choice calls impl={len(obs['choices'])} model={lp['final']['draws']}")
     return out
 
 
